@@ -14,7 +14,7 @@ func writeReplay(prop string, g *oblGroup, progs map[string]*Program) replayDir 
 	if len(name) > 120 {
 		name = name[:120]
 	}
-	dir := filepath.Join(verifDir, "replays", prop, name)
+	dir := filepath.Join(outDir, "replays", prop, name)
 	os.RemoveAll(dir)
 	os.MkdirAll(dir, 0o755)
 	var bad *Obligation
